@@ -291,6 +291,43 @@ func (c *panicClient) dischargeIndex(e *Engine, st *State, base, idx ast.Expr) (
 			}
 		}
 	}
+	// e[i+k] under the test `i+k < len(e)`, with i >= 0 (a loop index, or a known lower bound) and k a constant >= 0
+	if b, ok := ast.Unparen(idx).(*ast.BinaryExpr); ok && b.Op == token.ADD {
+		if kc, isC := constInt(info, b.Y); isC && kc >= 0 {
+			ki, kb := e.CanonSt(st, idx), e.CanonSt(st, base)
+			if ki.OK && kb.OK {
+				if f := st.Get("(" + ki.Key + " < len(" + kb.Key + "))"); f != nil && f.HasEq && f.Eq == "true" {
+					nonNeg := false
+					if fi := e.FactOf(st, b.X); fi != nil && fi.Lo != nil && *fi.Lo >= 0 {
+						nonNeg = true
+					}
+					if o := objOf(info, b.X); o != nil && !nonNeg {
+						e.P.ancestors(idx, e.CurFunc(), func(anc, _ ast.Node) bool {
+							switch l := anc.(type) {
+							case *ast.ForStmt:
+								// for i := 0; ...; i++ with no other write to i
+								if as, ok := l.Init.(*ast.AssignStmt); ok && len(as.Lhs) == 1 && len(as.Rhs) == 1 && objOf(info, as.Lhs[0]) == o {
+									if v0, isC := constInt(info, as.Rhs[0]); isC && v0 >= 0 {
+										if inc, ok := l.Post.(*ast.IncDecStmt); ok && inc.Tok == token.INC && objOf(info, inc.X) == o && !writesTo(info, l.Body, o) {
+											nonNeg = true
+										}
+									}
+								}
+							case *ast.RangeStmt:
+								if l.Key != nil && objOf(info, l.Key) == o && !writesTo(info, l.Body, o) {
+									nonNeg = true
+								}
+							}
+							return !nonNeg
+						})
+					}
+					if nonNeg {
+						return true, "I-rel: 0 <= i+k < len known (i a non-negative index, k a constant)"
+					}
+				}
+			}
+		}
+	}
 	// e[p.pos] with p.pos < len(e)
 	ki, kb := e.CanonSt(st, idx), e.CanonSt(st, base)
 	if ki.OK && kb.OK {
@@ -830,10 +867,10 @@ func ruleC12Support(p *Program, r *Run) {
 type postClient struct {
 	BaseClient
 	InlinePure // predicates and local closures (advance := func() error { ...; dst = append(dst, sub) })
-	growers map[*types.Func]*ast.FuncDecl
-	list    types.Object
-	returns int
-	bad     string
+	growers    map[*types.Func]*ast.FuncDecl
+	list       types.Object
+	returns    int
+	bad        string
 }
 
 func (c *postClient) PreAssign(e *Engine, st *State, lhs, rhs []ast.Expr, _ ast.Stmt) *State {
